@@ -316,3 +316,26 @@ Theorem C03_entref_complete_lowercase_table_refuted : exists hexa ds rest,
   ref_at_g digit_lower (ref_chars hexa ds ++ rest) <> XChars (utf8_of (ref_val (base_of hexa) ds)) (length (ref_chars hexa ds)).
 Proof. exact entref_complete_lower_refuted. Qed.
 Print Assumptions C03_entref_complete_lowercase_table_refuted.
+
+(* ---------------- SET and DEFAULT components (Rt/SetDef.v, notes/design/SetDef.md) ---------------- *)
+From A1 Require Import Rt.SetDef Rt.SetDefProofs.
+
+(* the BER reader takes the members of a SET in ANY order — every list of member indices that mentions each
+   member once — and returns the value DER would have given *)
+Theorem C03_setdef_set_any_order : forall tg ms vs es idx rest,
+  cwf_d (CSet tg ms) = true -> cwt_d (CSet tg ms) (VSeq vs) = true ->
+  enc_cms (cder false) ms vs = Some es ->
+  NoDup idx -> (forall i, In i idx <-> (i < length ms)%nat) ->
+  let c := concat (map (fun i => nth i es []) idx) in
+  zlen (tlv tg true c) <= rssize_max ->
+  cber_dec (CSet tg ms) (tlv tg true c ++ rest) = Some (strip_dflt (CSet tg ms) (VSeq vs), rest).
+Proof. exact cber_set_any_order. Qed.
+Print Assumptions C03_setdef_set_any_order.
+
+(* a default value PRESENT in the encoding (valid BER; not DER) is read: the encoding of the value under the type
+   with the DEFAULT read as OPTIONAL *)
+Theorem C03_setdef_default_present_read : forall t v bs rest,
+  cwf_d t = true -> is_marker t = false -> cwt_d t v = true -> cder false t v = Some bs -> zlen bs <= rssize_max ->
+  cber_dec t (bs ++ rest) = Some (strip_dflt t v, rest).
+Proof. exact cder_roundtrip_in_stream. Qed.
+Print Assumptions C03_setdef_default_present_read.
